@@ -269,9 +269,13 @@ class QuantityPoint {
     Diff x_;
 };
 
+// Out-of-line definition: needed before C++17 whenever `unit` is ODR-used (e.g., bound to a reference).
+template <typename UnitT, typename RepT>
+constexpr UnitT QuantityPoint<UnitT, RepT>::unit;
+
 template <typename Unit>
 struct QuantityPointMaker {
-    static constexpr auto unit = Unit{};
+    static constexpr Unit unit{};
 
     template <typename T>
     constexpr auto operator()(T value) const {
@@ -301,6 +305,10 @@ struct QuantityPointMaker {
         return QuantityPointMaker<decltype(unit / m)>{};
     }
 };
+
+// Out-of-line definition: needed before C++17 whenever `unit` is ODR-used (e.g., bound to a reference).
+template <typename Unit>
+constexpr Unit QuantityPointMaker<Unit>::unit;
 
 template <typename U>
 struct AssociatedUnitForPoints<QuantityPointMaker<U>> : stdx::type_identity<U> {};
